@@ -384,8 +384,9 @@ public:
    */
   bool operator<=(const IntervalConstraint& i) const
   {
-    return lowerBound_ >= i.lowerBound_
-           && upperBound_ <= i.upperBound_;
+    // at equal bounds, an included bound is not inside an interval that excludes it
+    return (lowerBound_ > i.lowerBound_ || (lowerBound_ == i.lowerBound_ && (i.inclLowerBound_ || !inclLowerBound_)))
+           && (upperBound_ < i.upperBound_ || (upperBound_ == i.upperBound_ && (i.inclUpperBound_ || !inclUpperBound_)));
   }
 
   /**
